@@ -34,7 +34,7 @@ func truncate(s string, n int) string {
 	return s
 }
 
-var c17Families = []string{"lr", "lr2", "expr", "expr4", "mutual", "mutual3", "hidden", "brackets", "seplist", "rightrec", "exprparen", "tower4", "tower5", "tower6", "hiddenmany", "hiddensepby", "hiddenopts", "hidden2", "hiddenempties", "calls", "kwexpr"}
+var c17Families = []string{"lr", "lr2", "expr", "expr4", "mutual", "mutual3", "hidden", "brackets", "seplist", "rightrec", "exprparen", "tower4", "tower5", "tower6", "hiddenmany", "hiddensepby", "hiddenopts", "hidden2", "hiddenempties", "calls", "kwexpr", "ltexpr"}
 
 var towerOps = "%^&|+*"
 
@@ -163,6 +163,12 @@ func c17Parser(family string, variant int, limit *int) parsley.Parser {
 			h = memo(alt(combinator.SeqOf(parser.Empty(), parser.Empty(), &h, r('b')), r('a')))
 		}
 		return &h
+	case "ltexpr": // expr -> term + expr | term ; term -> ( expr ) | 1 ; every token left-trimmed (the nodes of a rule start after the whitespace it was asked in front of)
+		lt := func(c rune) parsley.Parser { return text.LeftTrim(r(c), text.WsSpacesNl) }
+		var expr parser.Func
+		term := memo(first(combinator.SeqOf(lt('('), &expr, lt(')')), lt('1')))
+		expr = memo(combinator.Any(combinator.SeqOf(term, lt('+'), &expr), term))
+		return combinator.SeqOf(&expr, text.LeftTrim(parser.Empty(), text.WsSpacesNl))
 	case "kwexpr": // expr -> term and expr | term or expr | term ; term -> ( expr ) | x ; the keyword parsers register their word in the context every time they run
 		kw := func(w string) parsley.Parser {
 			p := text.Trim(terminal.Word(w, w, w))
@@ -305,6 +311,17 @@ func c17ValidInput(family string, n int, shape int) string {
 		return "xa" + strings.Repeat("b", n-2)
 	case "hiddenmany", "hiddensepby", "hiddenopts", "hidden2", "hiddenempties":
 		return "a" + strings.Repeat("b", n-1) // the prefix matches nothing
+	case "ltexpr":
+		sp := []string{" ", "", "  ", "\n"}[shape%4]
+		s := sp + "1"
+		for i := 0; len(s) < n; i++ {
+			if (i+shape)%2 == 0 {
+				s = sp + "(" + s + sp + "+" + sp + "1" + sp + ")"
+			} else {
+				s = sp + "(" + sp + "1" + sp + "+" + s + sp + ")"
+			}
+		}
+		return s
 	case "kwexpr":
 		s := "x"
 		for i := 0; len(s) < n; i++ {
